@@ -42,6 +42,10 @@ pub struct Bw {
 pub fn build(rng: &mut Rng, allow_fee_mint: bool) -> Option<Bw> {
     crate::world::install_stubs();
     let mut w = World::new();
+        // fresh keys are hashes of a counter: a random starting point makes the relative ORDER of the keys created below (banks,
+        // accounts, vaults) differ from world to world — positions are kept sorted by bank key, and order-dependent code paths
+        // would otherwise see the same order in every world
+        w.key_counter = rng.below(1 << 40);
     w.set_clock(1_700_000_000 + rng.range(0, 1_000_000), 1000);
     let fee_admin = w.add_wallet(10_000_000_000);
     let fee_wallet = w.add_wallet(0);
